@@ -57,16 +57,16 @@ CHECKS = {
         design="DESIGN.md §4 C06",
     ),
     "C07": dict(
-        rules="R07.1-R07.12",
-        what="commit-before-reply in the worker for both phases; readiness gating by not_ready_count and interface-only done marking in the coordinator; agreement of the step sets of the sequential and the two-phase path; commit before the first broadcast; coordinator-side import errors recorded, shipped for every module of the batch and replayed by the worker; the options sent to workers keep the order of per-module config sections; build-wide BuildManager state that module processing adds to and build_inner reads after dispatch is returned by workers (known finding: missing_stub_packages); every State attribute write_cache puts into a meta reaches the worker-side State; the hide-after-many-errors state is per process (known finding)",
+        rules="R07.1-R07.13",
+        what="commit-before-reply in the worker for both phases; readiness gating by not_ready_count and interface-only done marking in the coordinator; agreement of the step sets of the sequential and the two-phase path; commit before the first broadcast; coordinator-side import errors recorded, shipped for every module of the batch and replayed by the worker; the options sent to workers keep the order of per-module config sections; build-wide BuildManager state that module processing adds to and build_inner reads after dispatch is returned by workers (known finding: missing_stub_packages); every State attribute write_cache puts into a meta reaches the worker-side State; the hide-after-many-errors state is per process (known finding); the line span of the unreachable rest of a top-level block that the implementation phase skips includes the block's last line (R07.13)",
         quant="schedules of batches over workers",
         technique="CFG must-pass-through queries, guard-chain (control dependence) checks, sibling cross-check of step sets",
         note="Nothing about real interleavings is decided; these are the orderings any schedule relies on. tables/R07.3.json holds the four explained step differences.",
         design="DESIGN.md §4 C07",
     ),
     "C13": dict(
-        rules="R13.1-R13.14",
-        what="blockers never reach the ignore logic; suppressed-by-ignore implies recorded-as-used, only for enabled codes, and nothing else records; decision order of is_error_code_enabled (explicit disable, explicit enable, parent disabled); who may append to the error map; exit status truth table over (message, non-note, blockers, install override) and its data-flow to sys.exit; generators of diagnostics that bypass is_error_code_enabled are guarded by their own code not being disabled (truth table over the guard's atoms); the only-once slot is claimed only by recorded messages; notes next to coded errors carry a code; the ErrorWatcher stack sees every error before any code/ignore decision",
+        rules="R13.1-R13.15",
+        what="blockers never reach the ignore logic; suppressed-by-ignore implies recorded-as-used, only for enabled codes, and nothing else records; decision order of is_error_code_enabled (explicit disable, explicit enable, parent disabled); who may append to the error map; exit status truth table over (message, non-note, blockers, install override) and its data-flow to sys.exit; generators of diagnostics that bypass is_error_code_enabled are guarded by their own code not being disabled (truth table over the guard's atoms); the only-once slot is claimed only by recorded messages; notes next to coded errors carry a code; the ErrorWatcher stack sees every error before any code/ignore decision; the line spans that decide where an ignore has effect and which ignores are exempt from the unused report include the last line of the node (R13.15)",
         quant="programs x ignore placements x code selections",
         technique="CFG must-pass / reachability, guard chains, who-may-call, abstract evaluation of the exit-status assignments",
         note="Exactness of the delta for every program (origin spans, duplicate removal, note attachment) is value-level and not decided.",
